@@ -125,6 +125,12 @@ func (p *Prog) Reachable(roots ...*Func) map[*Func]bool {
 			}
 		}
 	}
+	// a called helper that was adopted is read as part of its adopter, not as a function of its own
+	for f := range out {
+		if f.Adopter != nil && f.spawnCall == nil && !f.adoptedSpawn {
+			delete(out, f)
+		}
+	}
 	return out
 }
 
